@@ -5,6 +5,8 @@
 //!      the test-suite programs, the examples, mutations of both, random token soups, random
 //!      character soups and targeted boundary inputs; the same inputs go through `noulith::parse`
 //!      under `catch_unwind` (totality: must return Ok or Err);
+//!   A2 literal sequences: 2-4 literals of different kinds in one source text; every token must be what
+//!      its literal decodes to when lexed alone (no lexer state leaks between tokens);
 //!   B  literal round trip: a literal *value* rendered in every literal syntax -> real
 //!      parse+evaluate vs Impl (lex + atom + evaluate arms) vs Spec (the denotation of the structured
 //!      literal) vs the generator's intended value;
@@ -284,6 +286,59 @@ fn gen_soup(rng: &mut Rng) -> String {
     }
     s
 }
+/// sequences of 2-4 literals of different kinds in one source text (lexer state must not leak from one
+/// token to the next): strings / format strings with `\xHH` escapes at byte offsets 0..3, bytes
+/// literals with multi-byte characters at the same offsets, raw strings, separated by blanks or
+/// punctuation.  Returned as the units (literal or separator) whose concatenation is the source.
+fn gen_literal_sequence(rng: &mut Rng) -> Vec<String> {
+    let multi = ['é', 'ÿ', '\u{80}', '中', '🐉', 'λ', '\u{7ff}', '\u{800}'];
+    let ascii = ['a', 'b', 'z', '0', ' ', '_'];
+    let n = 2 + rng.below(3);
+    let mut units: Vec<String> = vec![];
+    for i in 0..n {
+        let delim = if rng.chance(1, 2) { '\'' } else { '"' };
+        let k = rng.below(4) as usize; // byte offset of the interesting character
+        let mut body = String::new();
+        for _ in 0..k {
+            body.push(*rng.pick(&ascii));
+        }
+        let kind = rng.below(6);
+        match kind {
+            0 | 1 => {
+                // a \xHH escape at offset k (sometimes several)
+                body.push_str(&format!("\\x{:02x}", rng.below(256)));
+                if rng.chance(1, 3) {
+                    body.push_str(&format!("\\x{:02X}", rng.below(256)));
+                }
+            }
+            _ => {
+                // a multi-byte character at offset k
+                body.push(*rng.pick(&multi));
+                if rng.chance(1, 3) {
+                    body.push(*rng.pick(&multi));
+                }
+            }
+        }
+        if rng.chance(1, 2) {
+            body.push(*rng.pick(&ascii));
+        }
+        let prefix = match (kind, rng.below(4)) {
+            (0, _) => "",          // plain string with \x
+            (1, 0) => "B",         // bytes with \x
+            (1, _) => "F",         // format string with \x
+            (_, 0) => "",          // plain string with a multi-byte character
+            (_, 1) => "F",
+            (_, 2) => "R",
+            _ => "B",              // bytes with a multi-byte character
+        };
+        units.push(format!("{}{}{}{}", prefix, delim, body, delim));
+        if i + 1 < n {
+            units.push(rng.pick(&[" ", "; ", ", ", " + ", "\n", " $ "][..]).to_string());
+        }
+    }
+    units
+}
+
 fn gen_char_soup(rng: &mut Rng) -> String {
     let lim = if rng.chance(1, 5) { 60 } else { 14 };
     let n = 1 + rng.below(lim);
@@ -977,7 +1032,7 @@ fn run(args: Args) {
                 character soups (incl. arbitrary scalar values), and targeted boundary inputs (every escape character, \\x and \
                 \\u with every bracket style/digit count/closer, radix prefixes 0..40,64,2^32.., number suffix/shape products, \
                 10^4-character runs, unbalanced and nested delimiters up to depth 100, runaway strings/comments, keyword pairs); \
-                B: literal values rendered in every literal syntax (ints: dec/0x/0b/0o/NrDIGITS for N=2..36/64r in both cases, \
+                A2: sequences of 2-4 string/format/raw/bytes literals with \\xHH escapes and multi-byte characters at byte offsets 0..3 (real lex vs Impl vs the concatenation of each literal lexed alone); B: literal values rendered in every literal syntax (ints: dec/0x/0b/0o/NrDIGITS for N=2..36/64r in both cases, \
                 rationals, floats/imaginary with fraction/exponent/suffix shapes, strings/bytes/format/raw strings from random \
                 escape items) -> real parse+evaluate vs Impl vs Spec vs intended value; C: format-string bodies; D: Unicode \
                 class tables for all scalar values; E: deep nesting in a child process. A case is non-trivial when the token \
@@ -1090,6 +1145,56 @@ fn run(args: Args) {
         // the token streams (no independent Spec for whole streams: a difference is a correspondence break)
         if rust_class == "ok" && impl_class == "ok" {
             jd.judge(&mut rep, &format!("tokens:{}", class), &input, &rust_tokens[i], &imp, &rust_tokens[i]);
+        }
+    }
+
+    // ---------------- family A2: literal sequences; every token must be what its literal decodes to ALONE
+    {
+        let n_seq = if thorough { 60_000 } else { 6_000 };
+        let mut seqs: Vec<Vec<String>> = vec![];
+        // the seeded-defect shapes first
+        for (a, b) in [("'\\x41bc'", "B'é'"), ("F\"a\\xe9\"", "B\"a中\""), ("\"ab\\x00\"", "B'ab🐉'"), ("'\\x41'", "B'\u{80}'")] {
+            seqs.push(vec![a.to_string(), "; ".to_string(), b.to_string()]);
+            seqs.push(vec![a.to_string(), " ".to_string(), "'plain'".to_string(), " ".to_string(), b.to_string()]);
+        }
+        for _ in 0..n_seq {
+            seqs.push(gen_literal_sequence(&mut rng));
+        }
+        let mut reqs: Vec<String> = vec![];
+        let mut idx: Vec<(usize, usize)> = vec![]; // (first request of the units, number of units)
+        for u in &seqs {
+            let whole: String = u.concat();
+            idx.push((reqs.len() + 1, u.len()));
+            reqs.push(format!("lex {}", cps(&whole)));
+            for x in u {
+                reqs.push(format!("lex {}", cps(x)));
+            }
+        }
+        let resp = run_driver(&args.driver, &reqs);
+        for (k, u) in seqs.iter().enumerate() {
+            let whole: String = u.concat();
+            let (first, n) = idx[k];
+            let (imp, _) = split_resp(&resp[first - 1]);
+            let imp = normalise_model_tokens(&imp);
+            // Spec: the tokens of every unit lexed alone, concatenated
+            let mut spec = String::from("ok");
+            for j in 0..n {
+                let (alone, _) = split_resp(&resp[first + j]);
+                let alone = normalise_model_tokens(&alone);
+                if let Some(t) = alone.strip_prefix("ok") {
+                    spec.push_str(t);
+                } else {
+                    spec = alone.clone();
+                    break;
+                }
+            }
+            let rust = rust_lex(&whole);
+            let input = format!("{}\nrequest: {}", show(&whole), reqs[first - 1]);
+            rep.case(&whole, true);
+            rep.arm("A2:literal-sequence");
+            jd.judge(&mut rep, "literal-sequence", &input, &rust, &imp, &spec);
+            let pr = rust_parse(&whole);
+            jd.judge(&mut rep, "parse-panic:literal-sequence", &input, if pr == "panic" { "panic" } else { "returns" }, "returns", "returns");
         }
     }
 
